@@ -46,6 +46,8 @@ inductive Err where
   | XQDY0137 | FOJS0003 | FOJS0005 | FOAY0001 | FOAY0002 | XPTY0004
   deriving DecidableEq, Inhabited
 
+deriving instance DecidableEq for Except
+
 /-- Equivalence class of a value under Python `==` (NaN apart): `int`, `Decimal`, `float` and
 `bool` compare by exact numeric value (`True == 1 == 1.0 == Decimal(1)`), `str` and `AnyURI` by
 their string (uri.py `AnyURI.__eq__`), dates by `AbstractDateTime._compare`: year first, then the
@@ -224,14 +226,15 @@ def arrRemove (ms : List α) (ps : List Int) : Except Err (List α) :=
     .ok ((ms.zipIdx 1).filterMap fun (v, k) => if ps.contains (k : Int) then none else some v)
   else .error .FOAY0001
 
-/-- `array:subarray` (functions.py:433-457): slices `items[start-1:start+length-1]`, `items[start-1:]` -/
+/-- `array:subarray` (functions.py:433-459, after the error-code fix the negative length is
+tested first): slices `items[start-1:start+length-1]`, `items[start-1:]` -/
 def arrSubarray (ms : List α) (start : Int) (len : Option Int) : Except Err (List α) :=
-  if start < 1 ∨ start > (ms.length : Int) + 1 then .error .FOAY0001
+  if (match len with | some l => decide (l < 0) | none => false) then .error .FOAY0002
+  else if start < 1 ∨ start > (ms.length : Int) + 1 then .error .FOAY0001
   else match len with
     | none => .ok (ms.drop (start - 1).toNat)
     | some l =>
-      if l < 0 then .error .FOAY0002
-      else if start + l > (ms.length : Int) + 1 then .error .FOAY0001
+      if start + l > (ms.length : Int) + 1 then .error .FOAY0001
       else .ok ((ms.drop (start - 1).toNat).take l.toNat)
 
 /-- `array:head` (functions.py:460-473) -/
